@@ -130,3 +130,116 @@ package node
 //@   requires sel != nil && sel.Constraints != nil && sel.Node != nil && r != nil && hnd != nil
 //@   ensures (!proceed || constraintErr != nil) ==> fieldWrites == old(fieldWrites) && result == constraintErr
 //@   ensures proceed && constraintErr == nil ==> fieldWrites == old(fieldWrites) + 1
+
+// ---- C07: query parameters ---------------------------------------------------------------------------
+
+// Path chains are finite: pathLen is the number of segments (trusted axiom: chains are built by prepending only)
+//@ pure pathLen(p *Path) int = p == nil ? 0 : 1 + pathLen(p.Parent)
+//@ axiom pathLenNonNeg: forall p *Path :: pathLen(p) >= 0
+// a list and its entry are two segments with the same meta: they count as one level
+//@ macro pstep(p *Path) int = (meta.IsList(p.Meta) && p.Parent.Meta == p.Meta) ? 0 : 1
+// depth of p below the request base
+//@ pure relDepth(p *Path, base *Path) int = (p == nil || base == nil || p.Meta == base.Meta) ? 0 : pstep(p) + relDepth(p.Parent, base)
+//@ axiom relDepthNonNeg: forall p *Path, b *Path :: relDepth(p, b) >= 0
+// every list segment has a parent (the root segment is a module)
+//@ pure wfPath(p *Path) bool = p == nil || ((meta.IsList(p.Meta) ==> p.Parent != nil) && wfPath(p.Parent))
+
+//@ func (md MaxDepth) checkPathLen(current *Path, base *Path) bool
+//@   mode int
+//@   property C07
+//@   requires md.MaxDepth >= 1 && wfPath(current)
+//@   assigns nothing
+//@   loop 1 invariant 0 <= depth && depth < md.MaxDepth && wfPath(p)
+//@   loop 1 invariant depth + relDepth(p, base) == relDepth(current, base)
+//@   loop 1 decreases pathLen(p)
+//@   ensures result == (relDepth(current, base) < md.MaxDepth)
+
+//@ func (md MaxDepth) CheckContainerPreConstraints(r *ChildRequest) (bool, error)
+//@   mode int
+//@   property C07
+//@   requires r != nil && md.MaxDepth >= 1 && (r.Target == nil ==> r.Selection != nil && wfPath(r.Selection.Path))
+//@   assigns nothing
+//@   ensures result1 == nil
+//@   ensures r.Target != nil ==> result0
+//@   ensures r.Target == nil ==> result0 == (relDepth(r.Selection.Path, r.Base) < md.MaxDepth)
+
+//@ func (md MaxDepth) CheckFieldPreConstraints(r *FieldRequest, hnd *ValueHandle) (bool, error)
+//@   mode int
+//@   property C07
+//@   requires r != nil && md.MaxDepth >= 1 && (r.Target == nil ==> r.Selection != nil && wfPath(r.Selection.Path))
+//@   assigns nothing
+//@   ensures result1 == nil
+//@   ensures r.Target != nil ==> result0
+//@   ensures r.Target == nil ==> result0 == (relDepth(r.Selection.Path, r.Base) < md.MaxDepth)
+
+// fc.max-node-count: the count persists across requests; the request that exceeds the limit is an error
+//@ func (self *MaxNode) CheckContainerPreConstraints(r *ChildRequest) (bool, error)
+//@   mode int
+//@   property C07
+//@   requires self != nil && r != nil && self.Count < 9223372036854775807
+//@   assigns self.Count
+//@   ensures r.Target != nil ==> result0 && result1 == nil && self.Count == old(self.Count)
+//@   ensures r.Target == nil ==> self.Count == old(self.Count) + 1
+//@   ensures r.Target == nil ==> result0 == (self.Count <= self.Max) && (result1 == nil) == (self.Count <= self.Max)
+
+// a path selector decides by (selector, base, candidate) only
+//@ pure pmatch(m PathMatcher, base *Path, candidate *Path) bool
+//@ interface PathMatcher.PathMatches(base *Path, candidate *Path) bool
+//@   assigns nothing
+//@   ensures result == pmatch(self, base, candidate)
+
+// fc.range: on the first request of the selected list the cursor moves to the start row; afterwards the
+// list ends before EndRow (half-open window [StartRow, EndRow), -1 = unbounded); other lists are untouched
+//@ func (self *ListRange) CheckListPreConstraints(r *ListRequest) (bool, error)
+//@   mode int
+//@   property C07
+//@   requires self != nil && r != nil && self.Selector != nil && (r.Target == nil ==> r.Selection != nil)
+//@   requires -9223372036854775808 <= self.StartRow
+//@   assigns r.StartRow64, r.StartRow, r.Row64, r.Row
+//@   ensures result1 == nil
+//@   ensures r.Target != nil || !pmatch(self.Selector, r.Base, r.Selection.Path) ==> result0 && r.Row64 == old(r.Row64) && r.StartRow64 == old(r.StartRow64) && r.Row == old(r.Row) && r.StartRow == old(r.StartRow)
+//@   ensures r.Target == nil && pmatch(self.Selector, r.Base, r.Selection.Path) && r.First ==> result0 && r.Row64 == self.StartRow && r.StartRow64 == self.StartRow && r.Row == self.StartRow && r.StartRow == self.StartRow
+//@   ensures r.Target == nil && pmatch(self.Selector, r.Base, r.Selection.Path) && !r.First ==> result0 == !(self.EndRow != -1 && r.Row64 >= self.EndRow) && r.Row64 == old(r.Row64)
+
+// content=config / nonconfig / all
+//@ pure cfgOf(d meta.HasDetails) bool
+//@ interface meta.HasDetails.Config() bool
+//@   assigns nothing
+//@   ensures result == cfgOf(self)
+
+//@ func (self ContentConstraint) CheckContainerPreConstraints(r *ChildRequest) (bool, error)
+//@   mode int
+//@   property C07
+//@   requires r != nil && r.Meta != nil
+//@   assigns nothing
+//@   ensures result1 == nil
+//@   ensures r.Target != nil || self == ContentAll || self == ContentOperational ==> result0
+//@   ensures r.Target == nil && self != ContentAll && self != ContentOperational ==> result0 == (dyn(r.Meta) == meta.HasDetails ? cfgOf(r.Meta) : true)
+
+//@ func (self ContentConstraint) CheckFieldPreConstraints(r *FieldRequest, hnd *ValueHandle) (bool, error)
+//@   mode int
+//@   property C07
+//@   requires r != nil && (dyn(r.Meta) == *meta.Leaf || dyn(r.Meta) == *meta.LeafList || dyn(r.Meta) == *meta.Any)
+//@   assigns nothing
+//@   ensures result1 == nil
+//@   ensures r.Target != nil || self == ContentAll ==> result0
+//@   ensures r.Target == nil && self != ContentAll ==> result0 == ((cfgOf(r.Meta) && self == ContentConfig) || (!cfgOf(r.Meta) && self == ContentOperational))
+
+// fields / fc.xfields
+//@ func (self *FieldsMatcher) CheckContainerPreConstraints(r *ChildRequest) (bool, error)
+//@   mode int
+//@   property C07
+//@   requires self != nil && r != nil && self.selector != nil
+//@   assigns nothing
+//@   ensures result1 == nil
+//@   ensures r.Target != nil ==> result0
+//@   ensures r.Target == nil ==> result0 == (pmatch(self.selector, r.Base, r.Path) != self.reverse)
+
+//@ func (self *FieldsMatcher) CheckFieldPreConstraints(r *FieldRequest, hnd *ValueHandle) (bool, error)
+//@   mode int
+//@   property C07
+//@   requires self != nil && r != nil && self.selector != nil
+//@   assigns nothing
+//@   ensures result1 == nil
+//@   ensures r.Target != nil ==> result0
+//@   ensures r.Target == nil ==> result0 == (pmatch(self.selector, r.Base, r.Path) != self.reverse)
